@@ -8,12 +8,22 @@ import (
 	"go/types"
 
 	"golang.org/x/tools/go/ssa"
+	"sort"
 )
 
 // verifyFunction generates all obligations for fn against its contract.
 func (eng *Engine) verifyFunction(fn *ssa.Function, key string, c *Contract) (res verifyResult) {
 	ex := eng.newExecutor(fn, key, c, nil)
 	ex.safety = !c.NoSafety
+	if al := eng.renamedLocals(key, fn); al != nil {
+		ex.aliases = al
+		var names []string
+		for o, n := range al {
+			names = append(names, o+" -> "+n)
+		}
+		sort.Strings(names)
+		ex.abstracted["locals renamed since the baseline (same position and type), contract names follow: "+strings.Join(names, ", ")]++
+	}
 	defer func() {
 		if r := recover(); r != nil {
 			if u, ok := r.(unsupported); ok {
